@@ -443,6 +443,11 @@ class Run:
         return self.binop(n.op, self.eval(n.left), self.eval(n.right), n)
 
     def binop(self, op: ast.operator, a: Any, b: Any, n: ast.AST) -> Any:  # noqa: C901, PLR0911, PLR0912
+        hb = getattr(self.spec, "binop", None)
+        if hb is not None:
+            rb = hb(self, op, a, b, n)
+            if rb is not NotImplemented:
+                return rb
         if isinstance(a, Ref) and not self.is_list(a):
             name = {ast.Add: "__add__", ast.Sub: "__sub__", ast.Mult: "__mul__"}.get(type(op))
             if name and self.program.find_method(self.cls_of(a), name):
